@@ -46,7 +46,7 @@ def strategy(tier, shard, nshards):
     name = st.one_of(
         st.integers(0, len(HOSTILE_REL) - 1).map(lambda i: {"k": "rel", "i": i}),
         st.integers(0, len(HOSTILE_REL) - 1).map(lambda i: {"k": "rel", "i": i}),
-        st.integers(0, 7).map(lambda i: {"k": "abs", "i": i}),
+        st.integers(0, 11).map(lambda i: {"k": "abs", "i": i}),
         st.integers(0, len(BENIGN) - 1).map(lambda i: {"k": "ok", "i": i}),
     )
     step = st.builds(
@@ -114,7 +114,10 @@ def execute(trace) -> CaseResult:
     mhe = stdmb.MH(os.path.join(etc, "mailish"), create=True)
     mhe.add(tagged_message(f"{SECRET}etc", body=f"{SECRET}\r\n").replace(b"\r\n", b"\n"))
     mhe.close()
-    ABS = [etc, etc + "/passwd", etc + "/mailish", "/" + etc, other + "/inbox", "/" + other + "/inbox", jail, "/" + etc + "/mailish"]
+    ABS = [etc, etc + "/passwd", etc + "/mailish", "/" + etc, other + "/inbox", "/" + other + "/inbox", jail, "/" + etc + "/mailish",
+           # names of things that do NOT exist yet below directories outside the mail root (all inside the
+           # harness's scratch jail): a CREATE/RENAME/APPEND that takes them for file-system paths plants them
+           etc + "/planted", other + "/planted/deep", jail + "/fresh9/deep", other + "/inbox/sub9"]
 
     def resolve(nm: str):
         """(escapes lexically?, resolves to something existing?)"""
